@@ -172,10 +172,13 @@ class Run:
         with open(tmp, 'w', encoding='utf-8') as fh:
             json.dump(ev, fh, indent=1, default=_default, ensure_ascii=False)
         os.replace(tmp, os.path.join(EVIDENCE_DIR, self.pid + '.json'))
-        if guard_errors:
+        if guard_errors and not new:
             for g in guard_errors:
                 print(f"INTERNAL-ERROR property={self.pid} vacuity guard: {g}", file=sys.stderr)
             return 2
+        for g in guard_errors:
+            # violations were found: a degenerate remainder of the run does not take precedence over them
+            print(f"note: property={self.pid} vacuity guard (not decisive, violations reported): {g}", file=sys.stderr)
         print(f"{self.pid} {self.tier}: {cov.get('transitions', cov.get('evaluations', 0))} transitions/evaluations, "
               f"{len(self.violations)} violating keys ({len(new)} new), {ev['wall_s']} s")
         return 1 if new else 0
